@@ -92,8 +92,8 @@ Eval(w, q) ==
     /\ Tick
     /\ LET r == wrap[w].store IN
        ret' = [val |-> IF Overwrites(r) THEN <<wrap[w].m, q, r>> ELSE <<"garbage">>, want |-> <<wrap[w].m, q, r>>]
-    /\ loaded' = [loaded EXCEPT ![wrap[w].m] = TRUE]
-    /\ UNCHANGED <<kern, wrap, dm, dict>>
+    \* (the wrapper class owns its own compiled model object: `loaded` is about core.load_model's)
+    /\ UNCHANGED <<kern, loaded, wrap, dm, dict>>
 Clone(w, w2) ==
     /\ Tick /\ w # w2
     /\ wrap' = [wrap EXCEPT ![w2] = wrap[w]]
